@@ -311,10 +311,11 @@ def ownership_part(chk, rnd):
   ]
   cfgs.append(('2 pools x 2 workers, run picks an idle worker',
                {'a1': ['acquire_all', 'idle_run', 'release_all'], 'b1': ['idle_run', 'idle_run']}, {'a1': 'A', 'b1': 'B'}, ['w1', 'w2']))
-  if chk.tier == 'thorough':
-    cfgs.append(('2 pools, 2 threads in pool A', {'a1': ['acquire_all', 'release_all'], 'a2': ['release_all'],
-                                                  'b1': ['acquire_all', 'release_all', 'acquire_all']},
-                 {'a1': 'A', 'a2': 'A', 'b1': 'B'}, ['w1']))
+  # a second thread of pool A releases while pool B acquires: release_all's ownership check and the release are one step
+  cfgs.append(('2 pools, 2 threads in pool A', {'a1': ['acquire_all', 'release_all'], 'a2': ['release_all'],
+                                                'b1': ['acquire_all', 'release_all', 'acquire_all']} if chk.tier == 'thorough' else
+               {'a2': ['release_all'], 'b1': ['acquire_all', 'release_all', 'acquire_all']},
+               {'a1': 'A', 'a2': 'A', 'b1': 'B'} if chk.tier == 'thorough' else {'a2': 'A', 'b1': 'B'}, ['w1']))
   total_drift = 0
   for name, progs, pool_of, workers in cfgs:
     defs = dict(mc_PoolOf=qconfig.fn(pool_of), mc_Prog=qconfig.fn(progs), mc_WorkerSeq=tlc.tla(list(workers)))
